@@ -350,12 +350,13 @@ ARGS_LOOP:
 		if optPair, is := isOption(iterator.Value(), mode, false); is {
 
 			// iterate over the possible cli args and try matching against expectations
+			verbatim := iterator.Value() // the iterator moves when an option consumes its arguments
 			for _, p := range optPair {
 				// handle full option match
 				optionMatches := getAliasNameFromPartialEntry(currentProgramNode, p.Option)
 				if len(optionMatches) > 1 {
 					sort.Strings(optionMatches)
-					err := fmt.Errorf(text.ErrorAmbiguousArgument, iterator.Value(), optionMatches)
+					err := fmt.Errorf(text.ErrorAmbiguousArgument, verbatim, optionMatches)
 					return currentProgramNode, []string{}, err
 				}
 
@@ -365,12 +366,12 @@ ARGS_LOOP:
 						break ARGS_LOOP
 					}
 					// TODO: This shouldn't append new children but update existing ones and isOption needs to be able to check if the option expects a follow up argument.
-					opt := newUnknownCLIOption(currentProgramNode, p.Option, iterator.Value(), p.Args...)
+					opt := newUnknownCLIOption(currentProgramNode, p.Option, verbatim, p.Args...)
 					currentProgramNode.UnknownOptions = append(currentProgramNode.UnknownOptions, opt)
 
 					switch currentProgramNode.unknownMode {
 					case Pass, Warn:
-						currentProgramNode.ChildText = append(currentProgramNode.ChildText, iterator.Value())
+						currentProgramNode.ChildText = append(currentProgramNode.ChildText, verbatim)
 					}
 					continue
 				}
